@@ -64,6 +64,7 @@ def run(ctx: Context) -> None:
     ctx.rule(c14.r4_checkpoint_on_every_exit, v, "R6")
     ctx.rule(r7_restore_order, pl)
     ctx.rule(r8_restore_is_read_only, pl)
+    ctx.rule(r9_suffix_slices, pl)
 
 
 def _self_path(e: ast.expr, self_name: str | None) -> str | None:
@@ -565,3 +566,24 @@ def r8_restore_is_read_only(ctx: Context, pl: Plumbing) -> None:
                 ctx.fail("R8.restore-read-only", f"{f.qualname.split(':')[1]}:{name}", f"`{' '.join(src(c).split())[:80]}` is reachable from restore_from_checkpoint (through {f.qualname.split(':')[1]}): restoring a checkpoint "
                          "modifies or deletes files of the folder it restores from, so the folder no longer holds the saved state", f, c)
     ctx.ok("R8.restore-read-only", "restore:reachable", f"{len(reach)} functions / {n} call sites reachable from restore_from_checkpoint scanned for file writes and deletions")
+
+
+# ---------------------------------------------------------------------------------------------- R9
+def r9_suffix_slices(ctx: Context, pl: Plumbing) -> None:
+    """What save writes must be a function of its arguments for *every* row count: a block selected as `a[-k:]` is the last k rows
+    only when k > 0 - for k == 0 (a second checkpoint with no new batch) it is the whole array."""
+    from ..util import negative_count_slices
+    prog = ctx.prog
+    funcs = [pl.save]
+    for c in calls_in(pl.save.node):
+        for t in prog.resolve_call(pl.save, c):
+            if isinstance(t, FuncInfo) and t.module is pl.save.module and t not in funcs:
+                funcs.append(t)
+    n = 0
+    for f in funcs:
+        for node, k, proven in negative_count_slices(f.node):
+            n += 1
+            ctx.check(proven, "R9.suffix-slice", f"{f.name}:[-{k}:]", f"`{src(node)}`: the count is guarded against 0",
+                      f"`{src(node)}` selects the last {k} rows only when {k} > 0; when {k} == 0 (a checkpoint written again with no new batch) it selects the WHOLE array, "
+                      "so rows already stored are stored a second time and the restored history differs from the saved one", f, node)
+    ctx.ok("R9.suffix-slice", "save_calibrator_state:slices", f"{len(funcs)} function(s) on the save path, {n} negative-count suffix slice(s), none unguarded")
